@@ -637,6 +637,11 @@ func (e *SpecEnv) evalCall(x *ast.CallExpr) Val {
 		return boolV(specEq(w, v, Val{K: KUnit, T: "nil"}))
 	case "prod":
 		s := arg(0)
+		if s.K == KRef && s.Sort == idxSort {
+			// product over an index / shape array
+			e.run.needProd()
+			return intV(sx("prod", s.T, arg(1).T, arg(2).T))
+		}
 		if s.K != KSlice {
 			specFail("prod of non-slice")
 		}
